@@ -13,6 +13,10 @@ CHECKS = {
          "reference model = documented layout with an independent NEVRA / module-UID parser", TECH + " (history + restart vs reference model)", "6/C03"),
  "C04": ("exploration", "Persistence invariant of the simulated treeinfo / discinfo nodes: API histories (permuted variant/path/image/checksum insertion, dashed top-level UIDs, child variants of every type, layered releases, src trees), dump with and without main_variant, restart by path / handle / loads, comparison with a reference model, byte-identical re-dump; every .treeinfo that reaches SimFS is additionally parsed by an independent minimal INI reader.",
          "text restricted to what the INI syntax can carry, as the property's quantifier states; integer timestamps only for the byte-identical oracle", TECH + " (seeded history + restart vs reference model, independent INI reader)", "6/C04"),
+ "C06": ("fault_enumeration", "A hand-written table of the complement of every documented field domain is enumerated over the field locators of history-built objects of all seven formats (any variant in the forest, any image in any cell, any section; quick: a PRNG sample of <= 24 per object, thorough: all): poison -> dumps() and dump(path) must raise TypeError/ValueError and yield no text -> heal -> dump succeeds and a restart gives the model back. Converse: every dump of an un-poisoned object in every run must succeed (an independent validity predicate over the reference model decides which is which).",
+         "only documented constraints are in the table; where the library is merely lax or strict about something undocumented the predicate answers UNSPECIFIED and nothing is demanded", TECH + " (enumeration of poisoned field locators inside sampled histories)", "6/C06"),
+ "C08": ("exploration", "One abstract content is built 2-4 times by different histories (permuted insertion order of every unordered part, redundant calls, once via restart), under SimSet iteration orders insertion/reverse/sorted/shuffled, each build dumped repeatedly: all byte strings equal; every text checked by independent code for canonical JSON (sorted keys, indent 4) or sorted INI sections/options; a sample of cases is re-executed in fresh interpreters under several real PYTHONHASHSEED values with the real set and the hashes of all dumps compared.",
+         "SimSet controls only sets created by the name `set` in the productmd modules or handed in by the harness; C-level set results are covered by the real-hash-seed sweep only", TECH + " (iteration-order adversary + permuted histories + real hash-seed sweep)", "6/C08"),
  "C09": ("exploration", "Histories of Images.add over a small identity pool (each identity attribute varied individually, equal and different checksums, same and different cells) under header versions below/at/above 1.1, with dump/restart and colliding pairs injected into stored documents of version 1.0/1.1/1.2; invariants: refusal leaves the manifest unchanged, exactly the addressed cell gains the image, no collision in any >=1.1 live or stored manifest, collision documents rejected on load iff >=1.1, identify_image(object)==identify_image(dict).",
          "identity function and collision scan re-implemented independently; two legacy-exemption consequences are listed as known findings", TECH + " (refused-call + stored-damage histories vs model)", "6/C09"),
  "C10": ("exploration", "Refusal of every non-binary architecture class on Images.add / Rpms.add inside histories (state unchanged), re-filing of source images / source RPMs when the node restarts on a stored manifest down-converted to images 1.0/1.1 or rpms 0.3 with a 'src' key, and the invariant that no architecture key of any live object or stored payload is outside the binary subset.",
